@@ -48,7 +48,7 @@ impl Property for C05 {
         "C05"
     }
     fn rule(&self) -> &'static str {
-        "profile `expansion`: programs whose rows hold 0-3 `C` and 0-5 `X` in input-bound columns at any position, X/Z in expected columns, literals, (expr) and bits() in between, at loop depth 0-3, multi-bit and bidirectional inputs, permuted headers, both driver types; every row statement carries a tag in a dedicated input column. Oracle (self-consistent): the items are cut into runs of equal tag; each run must consist of whole evaluations of g = 2^k x (3 if C else 1) items; within an evaluation item number p belongs to assignment a = p / phases, phase p % phases: the j-th X column from the left holds bit j of a, every C column holds 0,1,0 over the phases, only the last phase is checked (outputs non-empty) and is sent with the output-reading method, the other phases with the write-only method (as seen by an overriding driver), every other input and every expected value is the same in all items of the evaluation, expected columns holding a literal X / Z report X / Z, and the driver received exactly row.inputs. Non-trivial: an evaluation with >= 2 X, or >= 2 C, or both C and X was checked; distinct by source + signals + driver."
+        "profile `expansion`: programs whose rows hold 0-3 `C` and 0-5 `X` in input-bound columns at any position, X/Z in expected columns, literals, (expr) and bits() in between, at loop depth 0-3, multi-bit and bidirectional inputs, permuted headers, both driver types; in a third of the cases the driver fails on one call and the caller goes on (the failed item keeps its position in the expansion, represented by the vector the driver received); every row statement carries a tag in a dedicated input column. Oracle (self-consistent): the items are cut into runs of equal tag; each run must consist of whole evaluations of g = 2^k x (3 if C else 1) items; within an evaluation item number p belongs to assignment a = p / phases, phase p % phases: the j-th X column from the left holds bit j of a, every C column holds 0,1,0 over the phases, only the last phase is checked (outputs non-empty) and is sent with the output-reading method, the other phases with the write-only method (as seen by an overriding driver), every other input and every expected value is the same in all items of the evaluation, expected columns holding a literal X / Z report X / Z, and the driver received exactly row.inputs. Non-trivial: an evaluation with >= 2 X, or >= 2 C, or both C and X was checked; distinct by source + signals + driver."
     }
     fn cases(&self, tier: Tier) -> u64 {
         match tier {
@@ -57,7 +57,7 @@ impl Property for C05 {
         }
     }
     fn required_classes(&self) -> Vec<&'static str> {
-        vec!["C+X-row", "clock-triple", "x-expansion", "row>=2X", "row>=2C", "overriding-driver", "defaulting-driver", "expansion-in-loop", "literal-expected-X", "literal-expected-Z", "repeat-expansion"]
+        vec!["C+X-row", "clock-triple", "x-expansion", "row>=2X", "row>=2C", "overriding-driver", "defaulting-driver", "expansion-in-loop", "literal-expected-X", "literal-expected-Z", "repeat-expansion", "expansion-item-after-driver-failure"]
     }
     fn run(&self, s: &Streams) -> CaseOut {
         let mut out = CaseOut::new();
@@ -65,11 +65,17 @@ impl Property for C05 {
         let mut built = gen_case(&mut Ch::new(&s[0]), &cfg);
         let rows = instrument(&mut built, &mut Ch::new(&s[1]), 0, ProbePref::Vars, &[]);
         let text = built_text(&built);
-        let spec = gen_spec(
-            &mut Ch::new(&s[2]),
+        let mut dch = Ch::new(&s[2]);
+        let mut spec = gen_spec(
+            &mut dch,
             &built.sigs,
             &SpecCfg { palette: Palette::Small, zx: 0, free_layout: false, must_supply: built.must_supply(), both_driver_types: true },
         );
+        // in a third of the cases the driver fails on one call; the caller goes on, and the rest
+        // of the expansion that call belongs to must still follow
+        if dch.chance(1, 3) {
+            spec.fail_at = Some(1 + dch.upto(24));
+        }
         render_case(&mut out, &text, &built.sigs, Some(&spec));
         let f = feats(&built);
         feat_classes(&mut out, &f);
@@ -78,7 +84,7 @@ impl Property for C05 {
             return out;
         };
         let cap = 300;
-        let real = run_real(&tc, &built.sigs, &spec, &RunOpts { max_next: cap, ..Default::default() });
+        let real = run_real(&tc, &built.sigs, &spec, &RunOpts { max_next: cap, continue_after_driver_error: true, ..Default::default() });
         if let Some(c) = &real.ctor {
             match c {
                 RealItem::Panic(p) => out.fail(p.key(), format!("constructor panicked: {p}")),
@@ -87,14 +93,20 @@ impl Property for C05 {
             return out;
         }
         // items as rows; anything else ends the part that can be looked at
-        let mut items: Vec<&RealRow> = vec![];
+        // The item whose call the driver failed is represented by the vector the driver received
+        // (it still occupies its position in the expansion); its outputs are unknown.
+        let mut owned: Vec<(RealRow, bool)> = vec![];
         let mut clean_end = real.ended;
-        for it in &real.items {
+        for (k, it) in real.items.iter().enumerate() {
             match it {
-                RealItem::Row(r) => items.push(r),
+                RealItem::Row(r) => owned.push((r.clone(), false)),
                 RealItem::Panic(p) => {
                     out.fail(p.key(), format!("next() panicked: {p}"));
                     return out;
+                }
+                RealItem::DriverErr(_) if real.log_len_before.get(k + 1).copied() == Some(real.log_len_before[k] + 1) && real.log[real.log_len_before[k]].failed => {
+                    owned.push((RealRow { inputs: real.log[real.log_len_before[k]].inputs.clone(), outputs: vec![], failing: vec![], line: 0 }, true));
+                    out.class("driver-failure-item");
                 }
                 _ => {
                     clean_end = false;
@@ -102,6 +114,8 @@ impl Property for C05 {
                 }
             }
         }
+        let items: Vec<&RealRow> = owned.iter().map(|o| &o.0).collect();
+        let failed: Vec<bool> = owned.iter().map(|o| o.1).collect();
         let tag_of = |r: &RealRow| -> Option<i64> {
             match r.inputs.iter().find(|e| e.0 == "TAG").map(|e| e.1) {
                 Some(InVal::Val(t)) => Some(t),
@@ -164,7 +178,9 @@ impl Property for C05 {
                     }
                 }
                 let must_be_checked = ph == phases - 1;
-                if must_be_checked == it.outputs.is_empty() {
+                let is_failed = failed[i + p];
+                out.class_if(failed[i..i + p].iter().any(|f| *f), "expansion-item-after-driver-failure");
+                if !is_failed && must_be_checked == it.outputs.is_empty() {
                     out.fail(
                         "c05:wrong-phase-checked",
                         format!("{what}: phase {ph} of {phases} has {} output entries; only the last phase is read and compared", it.outputs.len()),
@@ -185,7 +201,7 @@ impl Property for C05 {
                     }
                 }
                 // expected values: the row's, each time
-                if must_be_checked {
+                if must_be_checked && !is_failed {
                     if let Some(f0) = items[i..i + n_here].iter().find(|r| !r.outputs.is_empty()) {
                         for (o, o0) in it.outputs.iter().zip(&f0.outputs) {
                             if o.name != o0.name || o.expected != o0.expected {
